@@ -892,7 +892,11 @@ func (a *act) sliceOp(in *ssa.Slice, guard string, st *State) Val {
 			fx.addObl("slice", a.prefix()+what, guard, fmt.Sprintf("(and (<= 0 %s) (<= %s %s) (<= %s %d))", lo, lo, hi, hi, arr.Len()), in.Pos(), "slice bounds out of range")
 		}
 		t := fmt.Sprintf("(mk-slice %s %s (- %s %s))", x.T, lo, hi, lo)
-		return Val{T: a.bind(in, t, SSlice), S: SSlice, GT: in.Type()}
+		v := Val{T: a.bind(in, t, SSlice), S: SSlice, GT: in.Type()}
+		if in.Low == nil && in.High == nil {
+			v.CLen = int(arr.Len()) + 1
+		}
+		return v
 	case *types.Basic:
 		ln := App("strlen", x.T)
 		if in.High != nil {
